@@ -271,6 +271,33 @@ type idxCase struct {
 	Kind  string    `json:"kind"`
 	Limit int       `json:"limit"`
 	Pages []idxPage `json:"pages"`
+	// Prior: page lists indexed earlier by the same ColumnIndexer, each followed
+	// by ColumnIndex() and Reset() (what the writer does between row groups and
+	// after Writer.Reset). A reset indexer must behave like a new one, so the
+	// model is asked about Pages only.
+	Prior [][]idxPage `json:"prior,omitempty"`
+}
+
+func feedIndexer(k *kind, ix parquet.ColumnIndexer, pages []idxPage) {
+	for _, p := range pages {
+		mn, mx := parquet.Value{}, parquet.Value{}
+		if !p.Null {
+			mn, mx = k.val(p.Min), k.val(p.Max)
+		}
+		ix.IndexPage(p.NV, p.NN, mn, mx)
+	}
+}
+
+// runIndexer replays the whole history of a case on one ColumnIndexer.
+func runIndexer(k *kind, cs *idxCase) format.ColumnIndex {
+	ix := k.Typ.NewColumnIndexer(cs.Limit)
+	for _, prior := range cs.Prior {
+		feedIndexer(k, ix, prior)
+		_ = ix.ColumnIndex()
+		ix.Reset()
+	}
+	feedIndexer(k, ix, cs.Pages)
+	return ix.ColumnIndex()
 }
 
 func idxRequest(k *kind, cs *idxCase) string {
@@ -373,15 +400,7 @@ func idxCheck(c *core.Ctx, cs *idxCase) bool {
 				panicked = fmt.Sprint(r)
 			}
 		}()
-		ix := k.Typ.NewColumnIndexer(cs.Limit)
-		for _, p := range cs.Pages {
-			mn, mx := parquet.Value{}, parquet.Value{}
-			if !p.Null {
-				mn, mx = k.val(p.Min), k.val(p.Max)
-			}
-			ix.IndexPage(p.NV, p.NN, mn, mx)
-		}
-		ci = ix.ColumnIndex()
+		ci = runIndexer(k, cs)
 	}()
 	if panicked != "" {
 		c.Violation("indexer-panic", fmt.Sprintf("%s ColumnIndexer panicked: %s", k.Name, panicked), cs)
@@ -443,6 +462,30 @@ func idxShrink(c *core.Ctx, cs *idxCase) *idxCase {
 				break
 			}
 		}
+		if changed {
+			continue
+		}
+		// the history: whole earlier lists, then their pages
+		for h := range cur.Prior {
+			t := cur
+			t.Prior = append(append([][]idxPage(nil), cur.Prior[:h]...), cur.Prior[h+1:]...)
+			if fails(&t) {
+				cur, changed = t, true
+				break
+			}
+			for i := range cur.Prior[h] {
+				t := cur
+				t.Prior = append([][]idxPage(nil), cur.Prior...)
+				t.Prior[h] = append(append([]idxPage(nil), cur.Prior[h][:i]...), cur.Prior[h][i+1:]...)
+				if fails(&t) {
+					cur, changed = t, true
+					break
+				}
+			}
+			if changed {
+				break
+			}
+		}
 	}
 	return &cur
 }
@@ -493,7 +536,17 @@ func randIdxCase(c *core.Ctx, k *kind) *idxCase {
 	if k.Trunc || c.Rng.Intn(4) == 0 {
 		cs.Limit = c.Rng.Intn(23) - 1
 	}
-	n := c.Rng.Intn(9)
+	// one case in three runs on an indexer with a history (1-2 earlier lists)
+	if c.Rng.Intn(3) == 0 {
+		for h := 1 + c.Rng.Intn(2); h > 0; h-- {
+			cs.Prior = append(cs.Prior, randIdxPages(c, k, 1+c.Rng.Intn(8)))
+		}
+	}
+	cs.Pages = randIdxPages(c, k, c.Rng.Intn(9))
+	return cs
+}
+
+func randIdxPages(c *core.Ctx, k *kind, n int) (pages []idxPage) {
 	pattern := c.Rng.Intn(4)
 	lo := walk(c, pattern, n, len(k.Domain))
 	for i := 0; i < n; i++ {
@@ -526,9 +579,9 @@ func randIdxCase(c *core.Ctx, k *kind) *idxCase {
 			p.Min, p.Max = k.tok(k.Domain[a]), k.tok(k.Domain[b])
 			p.NN = c.Rng.Int63n(p.NV)
 		}
-		cs.Pages = append(cs.Pages, p)
+		pages = append(pages, p)
 	}
-	return cs
+	return pages
 }
 
 // cmpCheck ties Type.Compare to the model on every pair of the domain.
@@ -1716,15 +1769,7 @@ func runC05(c *core.Ctx) {
 		if !k.Num || len(vmIdx) >= 250 {
 			return
 		}
-		ix := k.Typ.NewColumnIndexer(cs.Limit)
-		for _, p := range cs.Pages {
-			mn, mx := parquet.Value{}, parquet.Value{}
-			if !p.Null {
-				mn, mx = k.val(p.Min), k.val(p.Max)
-			}
-			ix.IndexPage(p.NV, p.NN, mn, mx)
-		}
-		ci := ix.ColumnIndex()
+		ci := runIndexer(k, cs)
 		vmIdx = append(vmIdx, vmIndexCase(k, cs, &ci))
 	}
 
